@@ -24,6 +24,7 @@ CONSTANTS
  DevNoFlushOnAck = FALSE
  DevTolerateLostIdx = TRUE
  DevRestoreCountsOrphan = FALSE
+ DevReadFloorSegment = FALSE
 INIT Init
 NEXT Next
 VIEW View
